@@ -91,6 +91,10 @@ class UpdateReferences:
           found = True
       elif isinstance(elem, gfapy.OrientedLine):
         if elem.line is oldref:
+          if newref is None:
+            lst[idx] = None
+            found = True
+            continue
           if hasattr(oldref, "is_complement") and \
                             oldref.is_complement(newref):
             elem.orient = gfapy.invert(elem.orient)
@@ -101,6 +105,10 @@ class UpdateReferences:
 
   def __update_field_references(self, oldref, newref, possible_fieldnames):
     for fn in possible_fieldnames:
+      if newref is None and isinstance(self.get(fn), list):
+        # the referenced line is removed: drop it from the list
+        self.__update_reference_in_list(self.get(fn), oldref, None)
+        continue
       self.__update_reference_in_field(fn, oldref,
           newref if newref else str(oldref))
 
